@@ -359,25 +359,32 @@ Definition Inv (s : state) : Prop :=
 
 Lemma Inv_init : Inv init.
 Proof.
-  unfold Inv, init, Core, curv, rl_ok, all_einv; simpl. repeat split; try (intros; simpl in *; try lia; try contradiction).
+  unfold Inv, init, Core, curv, rl_ok, all_einv; simpl.
+  split; [split; [|split; [|split]]|split; [|split]].
+  - intros sid e [].
   - constructor.
-  - destruct H; discriminate.
-  - destruct e; discriminate.
-  - destruct e; discriminate.
+  - intros e L. inversion L.
+  - intros e L. inversion L.
+  - intros e [H|H]; discriminate.
+  - exact I.
+  - intros [|e] en H; discriminate.
 Qed.
 
 Definition ptw (s s' : state) : Prop :=
   forall e, (e < length (heap s))%nat -> sidf s' e = sidf s e /\ closedf s' e = closedf s e /\ pend s' e = pend s e.
 
-Lemma ptw_same s s' : heap s' = heap s -> rl_cur s' = rl_cur s -> sw_cur s' = sw_cur s -> ptw s s'.
-Proof. intros A B C e L. unfold sidf, closedf, pend, hp. now rewrite A, B, C. Qed.
+Definition same_cur (s s' : state) : Prop :=
+  forall e, cur_is (rl_cur s') e = cur_is (rl_cur s) e /\ cur_is (sw_cur s') e = cur_is (sw_cur s) e.
+
+Lemma ptw_same s s' : heap s' = heap s -> same_cur s s' -> ptw s s'.
+Proof. intros A B e L. destruct (B e) as [B1 B2]. unfold sidf, closedf, pend, hp. now rewrite A, B1, B2. Qed.
 
 Lemma ptw_upd s s' e0 en en' :
   nth_error (heap s) e0 = Some en -> heap s' = upd e0 en' (heap s) ->
   e_sid en' = e_sid en -> e_closed en' = e_closed en -> pc_pend en' = pc_pend en ->
-  rl_cur s' = rl_cur s -> sw_cur s' = sw_cur s -> ptw s s'.
+  same_cur s s' -> ptw s s'.
 Proof.
-  intros G A S1 S2 S3 B C e L. unfold sidf, closedf, pend, hp. rewrite A, B, C.
+  intros G A S1 S2 S3 B e L. destruct (B e) as [B1 B2]. unfold sidf, closedf, pend, hp. rewrite A, B1, B2.
   destruct (Nat.eq_dec e0 e) as [->|N].
   - rewrite (nth_upd_eq _ _ _ _ G), G. rewrite S1, S2, S3. auto.
   - rewrite nth_upd_neq by auto. auto.
@@ -385,9 +392,128 @@ Qed.
 
 Lemma Inv_frame s s' :
   Inv s -> table s' = table s -> length (heap s') = length (heap s) -> ptw s s' ->
-  (rl_cur s' = rl_cur s /\ sw_cur s' = sw_cur s) -> rl_ok s' -> all_einv s' -> Inv s'.
+  same_cur s s' -> rl_ok s' -> all_einv s' -> Inv s'.
 Proof.
-  intros (A & B & C & D) T L P [Q1 Q2] R E. unfold Inv. rewrite T, L. repeat split; auto.
-  - eapply core_ext; eauto.
-  - unfold curv. rewrite Q1, Q2, L. exact B.
+  intros (A & B & C & D) T L P Q R E. split; [|split; [|split]]; auto.
+  - rewrite T, L. eapply core_ext; eauto.
+  - intros e H. destruct (Q e) as [Q1 Q2]. rewrite Q1, Q2 in H. rewrite L. now apply B.
+Qed.
+
+Lemma rl_ok_mono s s' :
+  rl_ok s -> rl s' = rl s -> length (heap s') = length (heap s) ->
+  (forall e, (e < length (heap s))%nat -> sidf s' e = sidf s e /\ (closedf s e = true -> closedf s' e = true)) ->
+  (forall sid e, In (sid, e) (table s') -> In (sid, e) (table s)) -> rl_ok s'.
+Proof.
+  unfold rl_ok. intros H R L P T. rewrite R, L. destruct (rl s) as [| | | | | |[todo cur] [|]| |]; auto.
+  - intros e I. apply (H e). now apply T.
+  - destruct H as [A B]. split; auto. rewrite <- B. now apply P.
+  - destruct H as [A B]. split; auto. rewrite <- B. now apply P.
+  - destruct H as [A B]. split; auto. rewrite <- B. now apply P.
+  - intros e Le C. apply H; auto. destruct (closedf s e) eqn:X; auto. apply (P e Le) in X. congruence.
+  - intros e Le. apply P; auto.
+Qed.
+
+Lemma ptw_mono s s' : ptw s s' ->
+  forall e, (e < length (heap s))%nat -> sidf s' e = sidf s e /\ (closedf s e = true -> closedf s' e = true).
+Proof. intros P e L. destruct (P e L) as (A & B & _). split; auto. congruence. Qed.
+
+Lemma find_In sid tab e : C07_UDPSessions.find sid tab = Some e -> In (sid, e) tab.
+Proof.
+  induction tab as [|[k x] t IH]; simpl; [discriminate|]. destruct (k =? sid) eqn:E.
+  - apply N.eqb_eq in E. intros H; inversion H; subst. now left.
+  - intros H. right. auto.
+Qed.
+
+Lemma find_None sid tab : C07_UDPSessions.find sid tab = None -> forall e, ~ In (sid, e) tab.
+Proof.
+  induction tab as [|[k x] t IH]; simpl; intros H e; [tauto|]. destruct (k =? sid) eqn:E; [discriminate|].
+  apply N.eqb_neq in E. intros [X|X]; [inversion X; congruence|]. now apply (IH H e).
+Qed.
+
+Lemma Inv_rl_after s cl x : Inv (set_rl s (RClose cl x)) -> Inv (rl_after s cl x).
+Proof.
+  intros HI. unfold rl_after. destruct cl as [[|a todo] [c|]]; try exact HI. destruct x; [|exact HI].
+  eapply Inv_frame; [exact HI| reflexivity | reflexivity | apply ptw_same; [reflexivity|] | | | apply HI].
+  - intros e. split; reflexivity.
+  - intros e. split; reflexivity.
+  - destruct HI as (_ & _ & R & _). unfold rl_ok in *. simpl in *. intros e Le.
+    destruct (closedf _ e) eqn:X; auto. exfalso. apply (R e Le). exact X.
+Qed.
+
+Lemma Inv_sw_after s cl : Inv (set_sw s (SClose cl)) -> Inv (sw_after s cl).
+Proof.
+  intros HI. unfold sw_after. destruct cl as [[|a todo] [c|]]; exact HI.
+Qed.
+
+Lemma sidf_upd s e0 en en' h' x : nth_error (heap s) e0 = Some en -> h' = upd e0 en' (heap s) -> e_sid en' = e_sid en ->
+  match nth_error h' x with Some y => e_sid y | None => 0 end = sidf s x.
+Proof.
+  intros G -> S. unfold sidf. destruct (Nat.eq_dec e0 x) as [->|N].
+  - rewrite (nth_upd_eq _ _ _ _ G), G. auto.
+  - rewrite nth_upd_neq; auto.
+Qed.
+
+Lemma Inv_core s : Inv s -> Core (table s) (length (heap s)) (sidf s) (closedf s) (pend s).
+Proof. intros H; apply H. Qed.
+
+Lemma pend_pos s e : Inv s -> (e < length (heap s))%nat -> (1 <= pend s e)%nat -> closedf s e = true /\ pend s e = 1%nat.
+Proof.
+  intros HI L P. destruct (Inv_core _ HI) as (A & B & C & D).
+  destruct (closedf s e) eqn:X.
+  - split; auto. destruct (D e L X) as [[Y _]|[Y _]]; lia.
+  - destruct (C e L X). lia.
+Qed.
+
+Lemma Inv_close_won s s' e en en' :
+  Inv s -> nth_error (heap s) e = Some en -> e_closed en = false ->
+  heap s' = upd e en' (heap s) -> e_sid en' = e_sid en -> e_closed en' = true ->
+  table s' = table s ->
+  pend s' e = 1%nat -> (forall x, x <> e -> pend s' x = pend s x) ->
+  curv s' -> rl_ok s' -> all_einv s' -> Inv s'.
+Proof.
+  intros HI G C0 HH S1 C1 T P1 P2 CV RO EI.
+  assert (L : (e < length (heap s))%nat) by (apply nth_error_Some; congruence).
+  split; [|split; [|split]]; auto.
+  rewrite T, HH, upd_length.
+  eapply core_ext with (f := sidf s) (c := closedf s') (p := pend s').
+  - eapply core_close with (e := e); [apply (Inv_core _ HI) | exact L | | | exact P1 |].
+    + unfold closedf. now rewrite G.
+    + unfold closedf. rewrite HH, (nth_upd_eq _ _ _ _ G). exact C1.
+    + intros x N. split; [|now apply P2]. unfold closedf. rewrite HH, nth_upd_neq; auto.
+  - intros x Lx. repeat split; auto. unfold sidf at 1. rewrite HH. eapply sidf_upd; eauto.
+Qed.
+
+Lemma Inv_del s s' e en :
+  Inv s -> nth_error (heap s) e = Some en -> (1 <= pend s e)%nat ->
+  table s' = remove_sid (e_sid en) (table s) -> length (heap s') = length (heap s) ->
+  (forall x, sidf s' x = sidf s x /\ closedf s' x = closedf s x) ->
+  pend s' e = 0%nat -> (forall x, x <> e -> pend s' x = pend s x) ->
+  curv s' -> rl_ok s' -> all_einv s' -> Inv s'.
+Proof.
+  intros HI G P T LL SC P0 P2 CV RO EI.
+  assert (L : (e < length (heap s))%nat) by (apply nth_error_Some; congruence).
+  destruct (pend_pos _ _ HI L P) as [CL P1].
+  split; [|split; [|split]]; auto.
+  rewrite T, LL.
+  eapply core_ext with (f := sidf s) (c := closedf s) (p := pend s').
+  - replace (e_sid en) with (sidf s e) by (unfold sidf; now rewrite G).
+    eapply core_del; [apply (Inv_core _ HI) | exact L | exact CL | exact P1 | exact P0 | exact P2].
+  - intros x Lx. destruct (SC x). auto.
+Qed.
+
+Section Pres.
+Variable timeout : N.
+
+Ltac dmatch H :=
+  repeat match type of H with
+         | context [match ?x with _ => _ end] => let E := fresh "E" in destruct x eqn:E; try discriminate H
+         end.
+
+Lemma step_einv s a s' ev : Inv s -> step timeout s a = Some (s', ev) -> all_einv s'.
+Proof.
+  intros HI H. pose proof (step_hrel timeout _ _ _ _ H) as [H1 H2]. intros e en' G.
+  destruct (nth_error (heap s) e) as [en|] eqn:G0.
+  - destruct (H1 e en G0) as (en2 & G2 & R). rewrite G in G2. inversion G2; subst.
+    eapply erel_einv; eauto. destruct HI as (_ & _ & _ & D). eapply D; eauto.
+  - apply fresh_einv. eapply H2; eauto.
 Qed.
